@@ -153,6 +153,7 @@ using namespace opensmt::tokens;
   \n            { yyextra->insertBuf('\n');                                      }
   \\\"          { yyextra->insertBuf('"');                                       }
   \\\\          { yyextra->insertBuf('\\');                                      }
+  \\            { yyextra->insertBuf('\\');                                      }
   [^\\\n\"]     { yyextra->insertBuf(yyget_text(yyscanner)[0]);                  }
   \"            { yylval->str = strdup(yyextra->getBuf()); yyextra->clearBuf();
                     yy_pop_state(yyscanner); return TK_STR;                      }
